@@ -410,6 +410,16 @@ def check_C07(ctx):
     d = 2 if ctx.quick else 3
     cases, _ = ctx.tlc_mc("MC_C07", mc_cfg({"D": d, "WrapPolicy": '"keepinner"'}, ["ErrLocated", "NoOutputAfterError", "EmitCase"]),
                           timeout=3000, heap="16g")
+    # every third case goes through ParseTemplateAndCache; half of those that have a path spell it uncleanly (./x, a//b):
+    # Path is the path the template was parsed with, as given
+    for k, c in enumerate(cases):
+        if k % 3 == 2:
+            c["entry"] = "CacheRender"
+            if c.get("path") and (k // 3) % 2 == 0:
+                p = bytes(c["path"]).decode()
+                p = ("./" + p) if (k // 6) % 2 == 0 else p.replace("/", "//", 1)
+                c["path"] = list(p.encode())
+                c["rawpath"] = True
     validate_by_module(ctx, ctx.run_cases(cases))
     return finish(ctx, rule="MC_C07: 13 kinds of failing construct x every sequence of <= %d wrappers (if, for, case, capture, "
                             "unless) x newlines before/inside (0-2, 0-1) x with/without path x starting line 0/1/5; for "
@@ -665,7 +675,7 @@ def check_C04(ctx):
     # dynamic part: the race detector observing real concurrent executions
     race_bin = vcheck.build_harness(race=True)
     sessions = ctx.gen("consession", 12 if ctx.quick else 120)
-    seq_obs = ctx.run_cases(sessions, deadline=120)                  # alone, sequentially
+    seq_obs = ctx.run_cases(sessions, deadline=120, workers=1)       # alone, sequentially (one session at a time)
     racedir = os.path.join(ctx.scratch, "race")
     os.makedirs(racedir, exist_ok=True)
     os.environ["GORACE"] = "log_path=%s/r halt_on_error=0 exitcode=0" % racedir
@@ -680,6 +690,19 @@ def check_C04(ctx):
             cs.append(c)
         con_obs_all.append(ctx.run_cases(cs, deadline=300, workers=2, binary=race_bin))
     os.environ.pop("GORACE", None)
+    # a session whose set-up (parsing its templates, registering its cached sources) works alone but fails while
+    # other goroutines of the process are parsing and rendering is itself a concurrent result that differs
+    seq_ok = {str(o["id"]) for o in seq_obs if o.get("outcome") == "ok"}
+    for k, obs in enumerate(con_obs_all):
+        kept = []
+        for o in obs:
+            if o.get("outcome") == "skip" and str(o["id"]) in seq_ok:
+                oo = {"id": str(o["id"]) + "#setup", "kind": "session", "text": str(o.get("msg", ""))[:600], "outcome": "differs"}
+                ctx.reject(oo, None, "setting the session up (parsing its templates) failed while other goroutines were at work, "
+                                     "though it succeeds alone: " + str(o.get("msg", ""))[:200])
+            else:
+                kept.append(o)
+        con_obs_all[k] = kept
     validate_sessions(ctx, [seq_obs] + con_obs_all)
     for obs in con_obs_all:
         for o in obs:
